@@ -27,6 +27,27 @@ fn per_cell(inp: &Input) -> String {
     s
 }
 
+/// the same record from the direct `Voronoi::build`: faces are stored once; seen from the right cell the neighbour is the left
+/// generator, the shift is reversed and the centroid moves with it
+fn per_cell_direct(inp: &Input) -> String {
+    let v = meshless_voronoi::Voronoi::build(&inp.gens, inp.anchor, inp.width, inp.dimensionality(), inp.periodic);
+    let mut s = format!("NC {}", v.cells().len());
+    for (i, cell) in v.cells().iter().enumerate() {
+        let faces: Vec<_> = cell.faces(&v).collect();
+        s.push_str(&format!(" C {} {} {} NF {}", i, fx(cell.volume()), v3(cell.centroid()), faces.len()));
+        for f in faces {
+            if f.left() == i {
+                s.push_str(&format!(" {} {} {} {}", opt_usize(f.right()), crate::proto::opt_v3(f.shift()), fx(f.area()), v3(f.centroid())));
+            } else {
+                let sh = f.shift();
+                let cen = f.centroid() - sh.unwrap_or(DVec3::ZERO);
+                s.push_str(&format!(" {} {} {} {}", f.left(), crate::proto::opt_v3(sh.map(|x| -x)), fx(f.area()), v3(cen)));
+            }
+        }
+    }
+    s
+}
+
 fn shifts(dim: usize) -> Vec<[i32; 3]> {
     let r = [-1, 0, 1];
     let mut v = vec![];
@@ -94,11 +115,13 @@ pub fn run_periodic3(out: &mut Out, rng: &mut Rng, thorough: bool) {
                 let p = guarded(move || per_cell(&inp2)).unwrap_or_else(|e| e);
                 let rep2 = rep.clone();
                 let r = guarded(move || per_cell(&rep2)).unwrap_or_else(|e| e);
+                let inp3 = inp.clone();
+                let d = guarded(move || per_cell_direct(&inp3)).unwrap_or_else(|e| e);
                 out.rec(
                     "periodic3",
                     &inp.family,
                     &format!("{} REP {} {} {}", inp.tokens(), ng, central, sh.iter().map(|s| format!("{},{},{}", s[0], s[1], s[2])).collect::<Vec<_>>().join(";")),
-                    &format!("P {} R {}", p, r),
+                    &format!("P {} R {} D {}", p, r, d),
                 );
             }
         }
